@@ -11,7 +11,7 @@ structure AW (t : Tx) : Prop where
 
 theorem fwdOk_prefix : ∀ (l l' : List SChunk), FwdOk (l ++ l') → FwdOk l
   | [], _, _ => trivial
-  | c :: cs, l', h => ⟨h.1, fun he => fwdOk_prefix cs l' (h.2 he)⟩
+  | _ :: cs, l', h => ⟨h.1, fun he => fwdOk_prefix cs l' (h.2 he)⟩
 
 theorem AdjChain.prefix (a b : List SChunk) (h : AdjChain (a ++ b)) : AdjChain a := by
   have := h.take a.length
